@@ -24,10 +24,14 @@ enum Target {
     Prefix4,
     Prefix8,
     Prefix23,
+    /// a valid capture whose second record announces a caplen above the snaplen (non-pcap content in mid-stream): good, BAD, good
+    BadCaplenMid,
+    /// the same with the damaged record first: BAD, good
+    BadCaplenFirst,
 }
 const TARGETS: &[Target] = &[
     Target::Missing, Target::Dir, Target::Existing, Target::DevFull, Target::ThroughFile, Target::EmptyFile, Target::Short10, Target::Garbage24,
-    Target::ShortRecord, Target::GoodPcap, Target::GoodText, Target::Prefix4, Target::Prefix8, Target::Prefix23,
+    Target::ShortRecord, Target::GoodPcap, Target::GoodText, Target::Prefix4, Target::Prefix8, Target::Prefix23, Target::BadCaplenMid, Target::BadCaplenFirst,
 ];
 
 /// (source text of the opener with P for the path, kind of handle it yields)
@@ -96,12 +100,73 @@ fn followup_fails(call: &str, t: Target, pending_before: usize) -> Option<bool> 
             }
             Some(false)
         }
-        Target::ShortRecord | Target::GoodPcap | Target::Prefix4 | Target::Prefix8 | Target::Prefix23 if call == "read_line(h)" || call == "read_to_string(h)" => None, // not UTF-8: not an OS failure
+        Target::ShortRecord | Target::GoodPcap | Target::Prefix4 | Target::Prefix8 | Target::Prefix23 | Target::BadCaplenMid | Target::BadCaplenFirst if call == "read_line(h)" || call == "read_to_string(h)" => None, // not UTF-8: not an OS failure
         _ => {
             if call.starts_with("pcap_read") && t == Target::ShortRecord {
                 None // end of data inside a record: null or an error object
             } else {
                 Some(false)
+            }
+        }
+    }
+}
+
+/// Record-stream model for the damaged captures: which records are good, where the reader stands, and whether the
+/// damaged record has been met. A read that meets the damaged record with nothing to return must return an error
+/// object; `pcap_read_all` that already collected packets may return them, and then the *next* read on the handle
+/// must report the error (the stream position is lost behind a record header that cannot be trusted).
+struct RecStream {
+    good: Vec<bool>,
+    pos: usize,
+    deferred: bool,
+    reported: bool,
+}
+impl RecStream {
+    fn for_target(t: Target) -> Option<RecStream> {
+        match t {
+            Target::BadCaplenMid => Some(RecStream { good: vec![true, false, true], pos: 0, deferred: false, reported: false }),
+            Target::BadCaplenFirst => Some(RecStream { good: vec![false, true], pos: 0, deferred: false, reported: false }),
+            _ => None,
+        }
+    }
+    fn step(&mut self, call: &str) -> Option<bool> {
+        if self.reported {
+            return None; // after a reported failure the handle's further answers are not this property's business
+        }
+        if self.deferred {
+            self.reported = true;
+            return Some(true);
+        }
+        let at_bad = |s: &RecStream| s.pos < s.good.len() && !s.good[s.pos];
+        match call {
+            "pcap_read_next(h)" | "pcap_read_all(h, 1)" => {
+                if at_bad(self) {
+                    self.reported = true;
+                    Some(true)
+                } else {
+                    if self.pos < self.good.len() {
+                        self.pos += 1;
+                    }
+                    Some(false)
+                }
+            }
+            _ => {
+                let mut n = 0;
+                while self.pos < self.good.len() && self.good[self.pos] {
+                    self.pos += 1;
+                    n += 1;
+                }
+                if at_bad(self) {
+                    if n == 0 {
+                        self.reported = true;
+                        Some(true)
+                    } else {
+                        self.deferred = true;
+                        None
+                    }
+                } else {
+                    Some(false)
+                }
             }
         }
     }
@@ -116,6 +181,9 @@ struct Case {
     target: usize,
     calls: Vec<&'static str>,
 }
+
+/// binary runs with a pcap on standard input
+const N_STDIN: u64 = 6;
 
 pub struct P22 {
     cases: Vec<Case>,
@@ -168,6 +236,23 @@ fn setup(dir: &std::path::Path) -> std::collections::BTreeMap<String, String> {
     let mut short = good.clone();
     short.truncate(24 + 16 + 20);
     std::fs::write(dir.join("t/shortrec.pcap"), &short).unwrap();
+    let g = |i: u32| Rec { sec: i, usec: 2, wirelen: 60, data: (0..60).map(pat).collect() };
+    // the damaged record: a 16-byte record header announcing 70000 captured bytes under snaplen 65535
+    let bad_hdr = |v: &mut Vec<u8>| {
+        for x in [3u32, 4, 70000, 70000] {
+            v.extend_from_slice(&x.to_le_bytes());
+        }
+    };
+    let mut mid = pcap_bytes(MAGIC_US, 65535, 1, &[g(1)]);
+    bad_hdr(&mut mid);
+    mid.extend_from_slice(&record_bytes(&g(5)));
+    std::fs::write(dir.join("t/badmid.pcap"), &mid).unwrap();
+    let mut first = pcap_bytes(MAGIC_US, 65535, 1, &[]);
+    bad_hdr(&mut first);
+    first.extend_from_slice(&record_bytes(&g(5)));
+    std::fs::write(dir.join("t/badfirst.pcap"), &first).unwrap();
+    m.insert("BadCaplenMid".into(), p("t/badmid.pcap"));
+    m.insert("BadCaplenFirst".into(), p("t/badfirst.pcap"));
     for k in [4usize, 8, 23] {
         std::fs::write(dir.join(format!("t/prefix{}", k)), &good[..k]).unwrap();
         m.insert(format!("Prefix{}", k), p(&format!("t/prefix{}", k)));
@@ -194,22 +279,22 @@ impl Property for P22 {
         "fault_enumeration"
     }
     fn len(&self) -> u64 {
-        self.cases.len() as u64 + if self.e2e { 5 + STDOUT_FULL.len() as u64 } else { 0 }
+        self.cases.len() as u64 + if self.e2e { N_STDIN + STDOUT_FULL.len() as u64 } else { 0 }
     }
     fn describe(&self, idx: u64) -> Value {
-        if idx as usize >= self.cases.len() + 5 {
-            return json!({"standard output on /dev/full, then": STDOUT_FULL[idx as usize - self.cases.len() - 5]});
+        if idx as usize >= self.cases.len() + N_STDIN as usize {
+            return json!({"standard output on /dev/full, then": STDOUT_FULL[idx as usize - self.cases.len() - N_STDIN as usize]});
         }
         if idx as usize >= self.cases.len() {
-            return json!({"pcap_stream(stdin) through the binary with input": (["empty", "10 bytes", "24 bytes of garbage", "header + half a record", "closed stdin"][idx as usize - self.cases.len()])});
+            return json!({"pcap_stream(stdin) through the binary with input": (["empty", "10 bytes", "24 bytes of garbage", "header + half a record", "closed stdin", "good record, record with caplen above snaplen, good record: pcap_read_all then pcap_read_next"][idx as usize - self.cases.len()])});
         }
         let c = &self.cases[idx as usize];
         json!({"opener": OPENERS[c.opener].0, "target": format!("{:?}", TARGETS[c.target]), "then": c.calls})
     }
     fn run(&self, idx: u64) -> CaseOut {
         let dir = scratch_dir("c22");
-        if idx as usize >= self.cases.len() + 5 {
-            let call = STDOUT_FULL[idx as usize - self.cases.len() - 5];
+        if idx as usize >= self.cases.len() + N_STDIN as usize {
+            let call = STDOUT_FULL[idx as usize - self.cases.len() - N_STDIN as usize];
             let paths = setup(&dir);
             let src = format!(
                 "let pk = pcap_read_next(pcap_open(\"{}\")); let nl = \"line\" + str(char(10)); let r = {}; let f = flush(stdout); eprintln(\"{{}}\", is_error(r) || is_error(f)); eprintln(\"end\"); null;",
@@ -243,6 +328,24 @@ impl Property for P22 {
                 3 => good[..24 + 16 + 30].to_vec(),
                 _ => vec![],
             };
+            if k == 5 {
+                let paths = setup(&dir);
+                let input = std::fs::read(&paths["BadCaplenMid"]).unwrap();
+                let src = "let p = pcap_stream(stdin); println(\"{}\", is_error(p)); let a = pcap_read_all(p); println(\"{}\", is_error(a)); let q = pcap_read_next(p); println(\"{}\", is_error(a) || is_error(q)); println(\"end\");";
+                let o = run_bin(&["-c", src], &input, &[], 20);
+                let out = o.out_s();
+                if o.crashed() {
+                    return CaseOut::viol("pcap_stream crash", format!("damaged record on stdin: crashed: {}", one_line(&o.err_s(), 200)));
+                }
+                if !out.contains("end") || o.err_s().contains("Runtime error") {
+                    return CaseOut::viol("pcap_stream runtime-error", format!("damaged record on stdin: the program did not continue: stdout {:?} stderr {}", out, one_line(&o.err_s(), 200)));
+                }
+                let l: Vec<&str> = out.lines().collect();
+                if l.first() != Some(&"false") || l.get(2) != Some(&"true") {
+                    return CaseOut::viol("pcap_stream no-error-object", format!("good record, record with caplen 70000 above snaplen 65535, good record on stdin: neither pcap_read_all nor the pcap_read_next after it returned an error object: {:?}", out));
+                }
+                return CaseOut::pass("pcap_stream(stdin)");
+            }
             let src = "let p = pcap_stream(stdin); println(\"{}\", is_error(p)); if !is_error(p) { let q = pcap_read_next(p); println(\"{}\", q == null || is_error(q)); } println(\"end\");";
             let o = run_bin(&["-c", src], &input, &[], 20);
             let out = o.out_s();
@@ -280,9 +383,13 @@ impl Property for P22 {
             let open_ok = !open_fails(op, t);
             if open_ok {
                 let mut pending = if kind == "pcap-writer" { 24 } else { 0 };
+                let mut stream = if kind == "pcap-reader" { RecStream::for_target(t) } else { None };
                 for call in &c.calls {
                     src.push_str(&format!("let r = {};\npush(obs, is_error(r));\n", call));
-                    let f = followup_fails(call, t, pending);
+                    let f = match stream.as_mut() {
+                        Some(st) => st.step(call),
+                        None => followup_fails(call, t, pending),
+                    };
                     expect.push(f);
                     // track what sits in the 8 KiB write buffer
                     if f == Some(true) && t == Target::DevFull {
@@ -342,10 +449,10 @@ impl Property for P22 {
         }
     }
     fn rule(&self) -> String {
-        format!("fault alphabet {:?} (ENOENT, EISDIR at open or at the first read, EEXIST under mode x, ENOSPC via /dev/full at flush or when the 8 KiB buffer spills, ENOTDIR, empty / 10-byte / garbage / half-record pcap input, a valid global header cut after 4 / 8 / 23 bytes) x openers {:?} x every sequence of <= 2 (quick) or <= 4 (thorough; 4 only after a successful open) follow-up calls appropriate to the handle (read, read(n), read_line, read_to_string / write small, write 9600 bytes, flush, write bytes / pcap_read_next, pcap_read_all / pcap_write, 200 pcap_writes); each sequence is a script run through the real compiler and VM; oracle: the script reaches its end without a runtime error, every call that meets the failure returns a value with is_error == true and every other call does not; pcap_stream(stdin) with each bad input through the binary; write/flush on the stdout handle through the binary with standard output redirected to /dev/full. EACCES cannot be provoked (the sandbox runs as root)", TARGETS, OPENERS.iter().map(|o| o.0).collect::<Vec<_>>())
+        format!("fault alphabet {:?} (ENOENT, EISDIR at open or at the first read, EEXIST under mode x, ENOSPC via /dev/full at flush or when the 8 KiB buffer spills, ENOTDIR, empty / 10-byte / garbage / half-record pcap input, a valid global header cut after 4 / 8 / 23 bytes, a record announcing a caplen above the snaplen in the middle or at the start of an otherwise valid capture — there the call that meets the damaged record with nothing to return must return an error object, and after a pcap_read_all that returned the packets before it the next read must) x openers {:?} x every sequence of <= 2 (quick) or <= 4 (thorough; 4 only after a successful open) follow-up calls appropriate to the handle (read, read(n), read_line, read_to_string / write small, write 9600 bytes, flush, write bytes / pcap_read_next, pcap_read_all / pcap_write, 200 pcap_writes); each sequence is a script run through the real compiler and VM; oracle: the script reaches its end without a runtime error, every call that meets the failure returns a value with is_error == true and every other call does not; pcap_stream(stdin) with each bad input through the binary; write/flush on the stdout handle through the binary with standard output redirected to /dev/full. EACCES cannot be provoked (the sandbox runs as root)", TARGETS, OPENERS.iter().map(|o| o.0).collect::<Vec<_>>())
     }
     fn bounds(&self) -> Value {
-        json!({"sequences": self.cases.len(), "binary_runs": if self.e2e { 5 + STDOUT_FULL.len() } else { 0 }})
+        json!({"sequences": self.cases.len(), "binary_runs": if self.e2e { N_STDIN as usize + STDOUT_FULL.len() } else { 0 }})
     }
     fn assumptions(&self) -> Vec<String> {
         vec!["argument-kind misuse (a reader handle given to write, an error object given to read) is C11's business and not generated".into(),
